@@ -181,7 +181,9 @@ def step_trace(R, spec, repkind, stepname, mkstep, quick, multi=False, nan=False
         if parallel:
             from geneticengine.evaluation.parallel import ParallelEvaluator
             evaluator = ParallelEvaluator()
-        reg = Registry([problem])
+        # a second problem nobody is scored with until the driver scores brand-new offspring with it
+        probe = SingleObjectiveProblem(lambda p: float(value_of(p) % 7))
+        reg = Registry([problem, probe])
         n = 6
         pop = []
         while len(pop) < n:
@@ -200,14 +202,19 @@ def step_trace(R, spec, repkind, stepname, mkstep, quick, multi=False, nan=False
         for gi in range(gens):
             given = list(pop)               # the list object the step receives
             order_before = [reg.ids.of(x) for x in given]
+            known = set(reg.ids.map)
             try:
                 with time_limit(30):
                     new = list(step.apply(problem, evaluator, rep, rs, given, n, gi + 1))
                     evaluator.evaluate(problem, new)
+                    # offspring objects nobody has seen before are scored with the second problem as well: that must
+                    # leave every other object as it was
+                    SequentialEvaluator().evaluate(probe, [x for x in new if id(x) not in known])
             except Exception:
                 break
             evs.append({"e": "given", "op": stepname, "before": order_before, "after": [reg.ids.of(x) for x in given]})
-            evs.append({"e": "snap", "op": stepname, "objs": [reg.snap(x) for x in pop] + [reg.snap(x) for x in new]})
+            evs.append({"e": "snap", "op": stepname, "objs": [reg.snap(x) for x in pop] + [reg.snap(x) for x in new],
+                        "evald": [0] + [reg.ids.of(x) for x in new]})
             pop = new
             if (gi + 1) % 10 == 0:
                 evs.append({"e": "snap", "op": "registry", "objs": [reg.snap(x) for x in reg.all_objects()]})
